@@ -630,6 +630,16 @@ func (i *PostingsIterator) nextDocNumAtOrAfter(atOrAfter uint64) (uint64, bool, 
 		return 0, false, nil
 	}
 
+	if atOrAfter > math.MaxUint32 {
+		// doc numbers are 32 bits wide, so no hit is at or after this target;
+		// consume the remaining hits rather than truncating the target
+		i.Actual.AdvanceIfNeeded(math.MaxUint32)
+		if i.Actual.HasNext() {
+			i.Actual.Next()
+		}
+		return 0, false, nil
+	}
+
 	if i.postings.postings == i.ActualBM {
 		return i.nextDocNumAtOrAfterClean(atOrAfter)
 	}
